@@ -472,8 +472,11 @@ def check_history(case, ctx: Ctx):
 @st.composite
 def recog_cases(draw):
     return {"part": "recognition", "group": draw(st.sampled_from(["/", "/a", "/g/c"])),
-            "probe": draw(st.sampled_from(["/zzz", "/a/b/c/d", "zzz", "/bins", "/bins/start", "/a/pixels", "/indexes/bin1_offset", "g", "/g"])),
-            "file_kind": draw(st.sampled_from(["cooler", "cooler", "plain-hdf5", "text", "missing"]))}
+            "probe": draw(st.sampled_from(["/zzz", "/a/b/c/d", "zzz", "/bins", "/bins/start", "/a/pixels", "/indexes/bin1_offset", "g", "/g",
+                                           "/dsoft", "/dext", "/dsoft/x"])),
+            "file_kind": draw(st.sampled_from(["cooler", "cooler", "plain-hdf5", "text", "missing"])),
+            # the file also holds links that lead nowhere: a soft link to a missing object, an external link to a missing file
+            "dangling": draw(st.booleans())}
 
 
 def check_recognition(case, ctx: Ctx):
@@ -496,13 +499,22 @@ def check_recognition(case, ctx: Ctx):
         elif case["file_kind"] == "text":
             with open(p, "w") as f:
                 f.write("not hdf5\n")
+        if case.get("dangling") and case["file_kind"] in ("cooler", "plain-hdf5"):
+            with h5py.File(p, "r+") as f:
+                f["dsoft"] = h5py.SoftLink("/nowhere/at/all")
+                f["dext"] = h5py.ExternalLink(os.path.join(d, "no-such-file.cool"), "/a")
+            from cooler.fileops import list_coolers
+
+            listed = call("list_coolers(file with dangling links)", list_coolers, p)
+            want_l = [case["group"]] if case["file_kind"] == "cooler" else []
+            check(listed == want_l, lambda: f"list_coolers of a file with dangling links = {listed}, the file holds {want_l}")
         uri = p + "::" + case["probe"]
         holds = case["file_kind"] == "cooler" and ("/" + case["probe"].lstrip("/")) == case["group"]
         r = call(f"is_cooler({case['file_kind']} file :: {case['probe']})", is_cooler, uri)
         check(r is holds, f"is_cooler({case['file_kind']} file with a collection at {case['group']} :: {case['probe']}) = {r!r}, expected {holds}")
     finally:
         ctx.clean(d)
-    ctx.record(case, True, ["recognition", "file=" + case["file_kind"]])
+    ctx.record(case, True, ["recognition", "file=" + case["file_kind"], "with-dangling-links" if case.get("dangling") else "no-dangling-links"])
 
 
 CHECKS = {"history": check_history, "recognition": check_recognition}
